@@ -4,6 +4,7 @@
 //! what it observed (bytes, values abstracted to ids, results) as ndjson, and TLC
 //! decides.  The only float-aware pieces are `values::Conc` (id <-> f64 bits).
 pub mod cmd_codec;
+pub mod cmd_complete;
 pub mod cmd_rings;
 pub mod cmd_types;
 pub mod cmd_foreign;
